@@ -201,7 +201,7 @@ ADD = {
  "C01": " Also: templates with a required patch whose source comes and goes (a template that stops rendering and renders again), a composed kind that rejects some applies, and a lagging composed-resource cache (per read, or until the environment lets it catch up).",
  "C02": " Also dynamic placements while reconciles run: a composed resource deleted and created again under its name by another owner; control of a composed resource or of an XRD's CRD passing to another owner on the same object, followed by XRD deletion; the still active revision of an earlier incarnation of a package. A write that went through on a copy the reconcile had read as its own gets its own signature (check-then-act family, recorded findings).",
  "C03": " Also: body-less desired entries, P&T compositions that start with anonymous templates and are migrated to named ones (a still-desired resource is recognised by the content of its template), manual cache lag.",
- "C05": " Also: a P&T template whose object the API server rejects as invalid, templates with several readiness checks; Ready is judged only for reconciles that got through their composition.",
+ "C05": " Also: a P&T template whose object the API server rejects as invalid, templates with several readiness checks, compositions that start with anonymous templates (recognised by their content); Ready is judged only for reconciles that got through their composition.",
  "C06": " Also: a same-named claim in another namespace pointed at the first claim's XR, generated names that repeat (collisions), and an oracle that a retry creates the XR under the name the claim had recorded. Only committed writes count as touching a foreign XR.",
  "C07": " Also: external names given and taken away by the user, claims without any unreserved annotation, names recorded on the XR side; at the end of an undisturbed reconcile the claim carries the external name its XR had when the reconcile read it.",
  "C08": " Each run draws one of three worlds: W-claim (above), W-pkg with the dependency resolver (a deleted revision leaves the lock before it loses its finalizer; root packages move between two versions so that inactive revisions are deleted), and the usage world (a composed Usage is finalized only after its using resource is gone); only C08's own oracles speak in the borrowed worlds.",
